@@ -17,7 +17,7 @@ META = {
          'Decides three structural necessary conditions of "one steady target, the same for every algorithm": (R-scale) no value on the fan scale [min,max]/raw PWM is combined with, stored as, or passed for a value on the loop scale 0..255 anywhere in the controller and control-loop packages - in particular what ControlLoop.Cycle receives as current is on the same scale as its target; (R-feedback) that current value is the previous clamped result of Cycle, stored on every successful cycle; (R-clock) a loop routine that measures elapsed time against a remembered stamp refreshes the stamp on every path; (R-mono-steady) the request is non-decreasing in the curve value through the direct loop, clamp and rescale.',
          'settling time, history independence (PID wind-up), PID within one step, equality of fixed points, the per-cycle difference bound and monotone approach are dynamics (not decided); dimension seeds are the documented meaning of the Fan/SpeedCurve/ControlLoop interfaces'),
  'C05': ('§4 C05', 'typestate + guarded-path rules + sibling term agreement',
-         'Decides: every successful cycle re-asserts manual mode (guarded only by ControlMode support); the write is skipped only when a fresh successful read equals the expected value; the third-party counter is incremented only under a fresh successful read differing from the same expected-value term the writer uses.',
+         'Decides: every successful cycle re-asserts manual mode (guarded only by ControlMode support); the write is skipped only when a fresh successful read equals the expected value; the third-party counter is incremented only under a fresh successful read differing from the same expected-value term the writer uses and is never reset (a whole-struct store of the statistics must carry the count over).',
          'assumes the fan reads back what was written (quantifier)'),
  'C06': ('§4 C06', 'symbolic range analysis with assume/guarantee on SpeedCurve.Evaluate',
          'Decides only the range clause 0..255 for linear(min/max), PID, and function types sum/difference/minimum/maximum/default; agreement with the documented function, delta/average/steps are not decided.',
@@ -26,19 +26,19 @@ META = {
          'Decides, per code form, that the output is non-decreasing in the designated input: linear min/max ramp in the smoothed temperature (pieces ordered around the truncated ramp), the step-form wrapper and the interpolating expression inside one segment, function curves sum/minimum/maximum/average in every member value, DirectControlLoop.Cycle in its target, the target computation (curve value -> request) and the write routine (request -> value handed to Fan.SetPwm).',
          'between different interpolation segments and inside util.FindClosest monotonicity is a stated hypothesis (relational loop invariants; not decided); premises of the property (non-decreasing steps / PWM map, min<max) and maxPwmChangePerCycle >= 0, fan max >= min are recorded hypotheses; IEEE rounding assumed monotone'),
  'C08': ('§4 C08', 'error-propagation path rules + interprocedural taint (non-finite floats)',
-         'Decides the fault clause (no Sensor.GetValue converts a failed read into a value; the monitor never updates the average after a failed read; no value parsed by strconv.ParseFloat reaches the average without IsNaN/IsInf guards) and the one-step hull clause in real arithmetic (the stored average is UpdateSimpleMovingAvg(old, window, reading) of the same sensor, which is proved to lie between old average and reading for window >= 1).',
+         'Decides the fault clause (no Sensor.GetValue converts a failed read into a value; the monitor never updates the average after a failed read; no value parsed by strconv.ParseFloat reaches the average without IsNaN/IsInf guards) and no implementation reads through an open handle remembered in the sensor object (every poll opens the configured source anew) and the one-step hull clause in real arithmetic (the stored average is UpdateSimpleMovingAvg(old, window, reading) of the same sensor, which is proved to lie between old average and reading for window >= 1).',
          'floating-point rounding and the geometric convergence rate are not decided'),
  'C09': ('§4 C09', 'crash-site inventory over the call graph + error-propagation/taint rules',
-         'Decides: no panic / does-not-return call / unchecked error type assertion is reachable from the per-cycle entry points on an error path; curve errors are propagated; cycle errors never reach a panic or an actor return; all actor returns of the per-fan group and the sensor monitor are nil; the value result of a fallible library call (pointer/interface, error) is dereferenced only where that call\'s error is established nil (os.Stat after a successful EvalSymlinks with the not-found case handled is the one documented exception).',
+         'Decides: no panic / does-not-return call / unchecked error type assertion is reachable from the per-cycle entry points on an error path; curve errors are propagated; cycle errors never reach a panic or an actor return; all actor returns of the per-fan group and the sensor monitor are nil; when the control goroutine gives up on a fan every return passes the restore typestate shared with C03; the value result of a fallible library call (pointer/interface, error) is dereferenced only where that call\'s error is established nil (os.Stat after a successful EvalSymlinks with the not-found case handled is the one documented exception).',
          'library internals (prometheus, echo) summarised; usefulness of continued regulation not decided'),
  'C10': ('§4 C10', 'symbolic range analysis + data-flow rule on the stall predicate',
-         'Decides the step/termination structure (raise by >=1 on the stall path; stall at max returns the sentinel error which leads to restore) and the threshold precondition (a stall test against a non-positive constant on an exponential average can never fire once the fan has spun); not the latency itself.',
+         'Decides the step/termination structure (raise by >=1 on the stall path; stall at max returns the sentinel error which leads to restore), the poll structure (every poll of the RPM monitor feeds a reading into the average unless the RPM read itself failed) and the threshold precondition (a stall test against a non-positive constant on an exponential average can never fire once the fan has spun); not the latency itself.',
          'number of polls and pacing are timing (not decided)'),
  'C11': ('§4 C11', 'partial-operation inventory + validator-obligation rules + sibling agreement',
-         'Decides the crash-freedom half structurally: every configuration-dependent partial operation on the instantiate/evaluate path has a local guard or a verified validator check; factory and validator agree on backends; cycle detection covers every member edge.',
+         'Decides the crash-freedom half structurally: every configuration-dependent partial operation on the instantiate/evaluate path has a local guard or a verified validator check; factory and validator agree on backends; the run-time registries key objects by the id exactly as the validator compares it; cycle detection covers every member edge.',
          'acceptance semantics, Tarjan correctness and the converse (documented forms accepted) are not decided'),
  'C12': ('§4 C12', 'value-provenance + typestate (composition only)',
-         'Decides the composition: written value = pwmMap[FindClosest(request, keys)], keys = sorted(ExtractKeysWithDistinctValues(pwmMap)) recomputed after every map change, argument order correct, chosen key used as map index. The search itself is not decided.',
+         'Decides the composition: written value = pwmMap[FindClosest(request, keys)], keys = sorted(ExtractKeysWithDistinctValues(pwmMap)) recomputed after every map change, argument order correct, chosen key used as map index. Every supported input reported by the extraction is a key of the map. The search itself is not decided.',
          'nearest-ness / first-key-of-run / index arithmetic of the binary search are functional (not decided)'),
  'C13': ('§4 C13', 'who-may-write + guard-dominance rules',
          'Decides the override discipline: limit fields written only by construction and the three setters; setter stores dominated by (configured==nil || force); attach passes force=false; no other forced call; empty data rejected before any store; attaching curve data overwrites the held data (parameter or a copy made in the call) on every path before the limits are derived; non-neverStop minimum is 0.',
@@ -56,10 +56,10 @@ META = {
          'Decides: sysfs paths are SysfsPath/fan<rpm>_input, pwm<pwm>, pwm<pwm>_enable and all HwMonFan I/O uses them; pwmChannel defaulted only when 0; index/channel compared for every candidate; no-match returns an error; a sensor index is the running position among the chip\'s temperature inputs (discovery keys the map with a counter, not with a number from the device name); no unchecked map/index/assert in binding code.',
          'regex semantics and enumeration-order independence beyond first-match not decided'),
  'C18': ('§4 C18', 'who-may-call + dominance (guarded-path) + predicate-path rules',
-         'Decides the property at the level of code paths: only the checked entry point creates processes with a non-constant program; the exec call is reachable only through the nil-error edge of the permission check on the same value in the same activation (no memoisation); the check establishes uid==0, (gid==0 or no group write), no other write on the resolved file; the validator applies it to the config file whenever a cmd entry exists; the daemon starts only after validation.',
+         'Decides the property at the level of code paths: only the checked entry point creates processes with a non-constant program; the exec call is reachable only through the nil-error edge of the permission check on the same value in the same activation (no memoisation); the check establishes uid==0, (gid==0 or no group write), no other write on the resolved file; nothing changes how the checked program string is resolved between check and start (no store to Cmd.Dir/Path/Args); the validator applies it to the config file whenever a cmd entry exists; the daemon starts only after validation.',
          'TOCTOU between check and exec is outside the statement; os/exec, os.Stat semantics trusted'),
  'C19': ('§4 C19', 'typestate on *exec.Cmd + blocking-operation and crash-site inventory + error-propagation',
-         'Decides the structural preconditions of the bound: CommandContext with WithTimeout(timeout<=2s), WaitDelay set before Output, no unbounded blocking operation and no comma-less error assertion in the call tree, cmd.ProcessState (nil for a command that could not be started) used only under a nil test or through nil-tolerant methods, failures returned as errors, parse errors returned by the cmd fan/sensor methods.',
+         'Decides the structural preconditions of the bound: CommandContext with WithTimeout(timeout<=2s), WaitDelay set before Output, no unbounded blocking operation and no comma-less error assertion in the call tree, value results of fallible library calls used only where their error is nil, cmd.ProcessState (nil for a command that could not be started) used only under a nil test or through nil-tolerant methods, failures returned as errors, parse errors returned by the cmd fan/sensor methods.',
          'the wall-clock bound itself is timing (not decided)'),
  'C20': ('§4 C20', 'lockset-based static race detection over a thread model',
          'Decides a may-race over-approximation: every (field, thread-class pair) with a write and disjoint must-locksets is reported; today\'s pairs are recorded as known findings, any new pair is a violation.',
